@@ -111,6 +111,11 @@ def gen_plan(rng):
         else:
             draw["text"] = corpus.gen_desc(rng) if cls == "PLSSDesc" \
                 else corpus.gen_block(rng)
+        if draw["text"] and rng.random() < 0.12:
+            # what cleanup_desc() strips from the end of a description block
+            draw["text"] += rng.choice((";", ",", " and", " of the", ":", " -"))
+        if "layout" in sigma and rng.random() < 0.35:
+            sigma["layout"] = "copy_all"
         if fam == "precedence":
             old = {}
             for n, v in sigma.items():
